@@ -68,6 +68,8 @@ struct Config {
     i64 quantum_max_ns = 2000;
     double stall_p = 0.0;     // per decision point probability of a thread stall fault
     i64 stall_max_ns = 50 * 1000 * 1000;
+    double start_delay_p = 0.0; // per created thread: probability that it starts late
+    i64 start_delay_max_ns = 2 * 1000 * 1000;
     std::vector<int> guided;  // if non-empty: replay these choices at multi-choice points, then fall back to policy
     bool record_choices = false;
 };
